@@ -345,7 +345,7 @@ def run(ck):
     cs = configs(ck.quick)
     r = explore(ck, exec_c10, cs, 1)
     ck.note('exploration_one_deviation', r)
-    deep_names = ('single:0.2', 'inject:ab', 'reopen:tie') if ck.quick else tuple(c['name'] for c in cs)
+    deep_names = ('single:0.2', 'inject:ab', 'reopen:tie', 'user2:close+reopen') if ck.quick else tuple(c['name'] for c in cs)
     deep = [dict(c, name=c['name'] + ':2dev', short=True) for c in cs if c['name'] in deep_names]
     r2 = explore(ck, exec_c10, deep, 2, max_execs=3000000)
     ck.note('exploration_two_deviations', r2)
